@@ -265,16 +265,19 @@ POExpected(body, strategy, loc, env) ==
             POCat(POOut(POMark(loc, i)), POCatAll(IF strategy = "rev" THEN POReverse(segs) ELSE segs))
 
 (***************************************************************************)
-(* C11 pools: coherent data (a, b maps; x, x_1 strings; n the number).     *)
+(* C11 pools: coherent data (a, b maps; y, y_1 strings; n the number).     *)
+(* (Base name Y rather than X: the id key of a message is its placeholder  *)
+(* string WITHOUT braces, so {X}{X}{X} and {XXX} have the same id by       *)
+(* design; two such messages cannot live in one catalogue.)                *)
 (***************************************************************************)
 POVarN == MsgVar("n")
 PON1   == MsgBin("add", POVarN, MsgInt(1))
 
 PoolC11 == <<
-  MPrint(MsgRef("a", <<MsgKeyAcc("x")>>)),                            \* 1  {$a.x}       X
-  MPrint(MsgRef("b", <<MsgKeyAcc("x")>>)),                            \* 2  {$b.x}       X
-  MPrint(MsgVar("x")),                                                \* 3  {$x}         X
-  MPrint(MsgVar("x_1")),                                              \* 4  {$x_1}       X_1
+  MPrint(MsgRef("a", <<MsgKeyAcc("y")>>)),                            \* 1  {$a.y}       Y
+  MPrint(MsgRef("b", <<MsgKeyAcc("y")>>)),                            \* 2  {$b.y}       Y
+  MPrint(MsgVar("y")),                                                \* 3  {$y}         Y
+  MPrint(MsgVar("y_1")),                                              \* 4  {$y_1}       Y_1
   MPrint(PON1),                                                       \* 5  {$n + 1}     XXX
   MPrint(MsgBin("mul", PON1, MsgInt(2))),                             \* 6  {($n+1)*2}   XXX
   MPrint(MsgBin("add", POVarN, MsgBin("mul", MsgInt(1), MsgInt(2)))), \* 7  {$n+1*2}     XXX
@@ -283,9 +286,9 @@ PoolC11 == <<
   MTag("</a>"),                                                       \* 10
   MTag("<br/>"),                                                      \* 11
   MText("t"),                                                         \* 12
-  MText("u v") >>                                                     \* 13
+  MText(" u ") >>                                   \* 13  (spaces are part of the text)
 
-POInnerPool == << MPrint(POVarN), MPrint(MsgVar("x")), PoolC11[1], MPrint(PON1), MText("t"), MTag("<a>") >>
+POInnerPool == << MPrint(POVarN), MPrint(MsgVar("y")), PoolC11[1], MPrint(PON1), MText("t"), MTag("<a>") >>
 POSubjects  == << POVarN, PON1 >>
 POCaseSets  == << <<1>>, <<0, 1>>, <<2>>, <<>> >>      \* only the first is PO-representable
 
@@ -303,20 +306,29 @@ POFamInvalid ==
     {[kind |-> "plural", subj |-> 1, cs |-> j, cb |-> [i \in 1..Len(POCaseSets[j]) |-> <<5>>], db |-> db] :
         db \in {<<5>>, <<1, 5>>}} : j \in 2..Len(POCaseSets)}
 
+\* extra messages: placeholders over globals
+POExtraBodies == <<
+  << MText("Hi "), MPrint(MsgGlobal("GLOB")), MText("!") >>,
+  << MPrint(MsgGlobal("app.glob")), MText(" and "), MPrint(MsgVar("y")) >>
+>>
+POFamExtra == {[kind |-> "extra", i |-> i] : i \in 1..Len(POExtraBodies)}
+
 POFamBody(d) ==
   IF d.kind = "flat" THEN MsgPick(PoolC11, d.ix)
+  ELSE IF d.kind = "extra" THEN POExtraBodies[d.i]
   ELSE << MPlural(POSubjects[d.subj],
                   [i \in 1..Len(d.cb) |-> MCase(POCaseSets[d.cs][i], MsgPick(POInnerPool, d.cb[i]))],
                   MsgPick(POInnerPool, d.db)) >>
 
 POFamId(d) ==
   IF d.kind = "flat" THEN "F" \o MsgIxStr(d.ix)
+  ELSE IF d.kind = "extra" THEN "X" \o ToString(d.i)
   ELSE "P" \o ToString(d.subj) \o "c" \o ToString(d.cs) \o ":" \o MsgIxStrs(d.cb) \o "d" \o MsgIxStr(d.db)
 
 \* data
 POEnv(n) ==
-  [vars |-> [a |-> M([x |-> S("ax")]), b |-> M([x |-> S("bx")]), x |-> S("xv"), x_1 |-> S("x1v"), n |-> I(n)],
-   ij |-> NoIJ, glob |-> [g \in {} |-> Null]]
+  [vars |-> [a |-> M([y |-> S("ay")]), b |-> M([y |-> S("by")]), y |-> S("yv"), y_1 |-> S("y1v"), n |-> I(n)],
+   ij |-> NoIJ, glob |-> [g \in {"GLOB", "app.glob"} |-> S("gv")]]
 
 PONs == <<0, 1, 2, 3, 5, 11, 21, 22, 101>>
 =============================================================================
